@@ -483,6 +483,17 @@ _collection_resolver = AbstractTypeResolver("""),
             self._func()""", """        super().__exit__(exc_type, exc_val, exc_tb)
         if not self and exc_type is None:
             self._func()""")]),
+    dict(id="c10-load-extends-through-public-extend", fires={"C10": "C10.c"},
+         edits=[(DT + "synced_list.py", """                    self._data += [
+                        self._from_base(data=value, parent=self) for value in new_data
+                    ]""", """                    self.extend(new_data)""")]),
+    dict(id="c10-load-takes-collection-lock", fires={"C10": "C10.c"},
+         edits=[(DT + "synced_collection.py", """                data = self._load_from_resource()
+                with self._suspend_sync:
+                    self._update(data)""", """                with self._thread_lock:
+                    data = self._load_from_resource()
+                    with self._suspend_sync:
+                        self._update(data)""")]),
     dict(id="c19-memoizes-lying-class", fires={"C19": "C19.e"},
          edits=[("utils.py", """            if getattr(obj, "__class__", obj_type) is obj_type and not issubclass(
                 obj_type, tuple(self.cache_blocklist)
